@@ -103,10 +103,12 @@ CHECKS = {
         note="affine forms with rational coefficients; an arm that is not straight-line affine arithmetic is reported as not evaluable (fail closed)",
         ref="DESIGN.md section 3 C15"),
     "C16": dict(
-        technique="dispatch-table extraction from the discriminant switch of three sibling dispatchers (resolved callees + const generic arguments) and comparison with the format's table; literal secant vectors of the in-register DCT8 kernels compared with the formula, and a contradiction rule (forward and inverse cannot share one table provider)",
+        technique="dispatch-table extraction from the discriminant switch of three sibling dispatchers (resolved callees + const generic arguments) and comparison with the format's table; literal secant vectors of the in-register DCT8 kernels compared with the formula, and a contradiction rule (forward and inverse cannot share one table provider); evaluation of the generic scalar 1-D DCT from MIR (n = 2 .. 256, both directions) against the mathematical definition",
         text="Claimed narrowly: every one of the 27 transform types has a handler, and the generic, SSE2 and SSE4.1 dispatchers route each "
-             "type to the corresponding kernel family with the same const generic argument (e.g. Dct8x4 -> dct4x8<true>, Afv2 -> afv<2>). "
-             "Does not decide any numerical property of the kernels.",
+             "type to the corresponding kernel family with the same const generic argument (e.g. Dct8x4 -> dct4x8<true>, Afv2 -> afv<2>); "
+             "and the generic scalar 1-D DCT (the recursive kernel behind every block size) equals the mathematical definition for "
+             "n = 2 .. 256 in both directions (evaluated from MIR, 1e-4). Does not decide the vector kernels, the 2-D driver, AFV / DCT2 / "
+             "DCT4x8, or agreement between generic and vector kernels.",
         note="kernel families are recognised by name after stripping the architecture suffix",
         ref="DESIGN.md section 3 C16"),
     "C03": dict(
